@@ -1164,7 +1164,8 @@ RETCODE adfFileCreateNextBlock ( struct AdfFile * const file )
 
             /* the future block is the first file extension block */
             if (file->nDataBlock==MAX_DATABLK) {
-                file->currentExt=(struct bFileExtBlock*)malloc(sizeof(struct bFileExtBlock));
+                if ( file->currentExt == NULL )
+                    file->currentExt=(struct bFileExtBlock*)malloc(sizeof(struct bFileExtBlock));
                 if (!file->currentExt) {
                     adfSetBlockFree(file->volume, extSect);
                     (*adfEnv.eFct)("adfCreateNextFileBlock : malloc");
